@@ -76,3 +76,21 @@ def _cl(gridded_data, apprx_rate_density, expected_cond_count, n_obs):
         if not close(ln, e2, 1e-9, 1e-9):
             bad.append('normalised score %r, required %r' % (ln, e2))
     return bad
+
+
+@oracle('quadtree_find_location')
+def _qfl(bounds, lon, lat):
+    from csep.core.regions import QuadtreeGrid2D
+    b = numpy.asarray(bounds, dtype=float).reshape(-1, 4)
+    g = QuadtreeGrid2D.__new__(QuadtreeGrid2D)
+    g.bounds = b
+    out = call(g._find_location, lon, lat)
+    if out[0] == 'raise':
+        return ['unexpected exception ' + _exc(out)]
+    inside = [k for k in range(len(b)) if lon >= b[k, 0] and lat >= b[k, 1] and lon < b[k, 2] and lat < b[k, 3]]
+    r = out[1]
+    if not inside:
+        return [] if numpy.size(r) == 0 else ['no cell contains (%r, %r) but got %r' % (lon, lat, r)]
+    if numpy.size(r) != 1 or int(numpy.asarray(r).ravel()[0]) != inside[0]:
+        return ['_find_location(%r, %r) = %r, the first containing cell is %d (bounds %r)' % (lon, lat, r, inside[0], b.tolist())]
+    return []
